@@ -20,6 +20,7 @@ Info: Typical Usage
 
 from __future__ import annotations
 
+import builtins
 import dataclasses
 import sys
 import warnings
@@ -62,6 +63,10 @@ def slotted(  # noqa: C901
     """
 
     def _slots_setstate(self, state):
+        # An instance without slot values (e.g. of an unslotted subclass) pickles
+        #   its plain `__dict__`, not the `(dict, slots)` pair.
+        if isinstance(state, builtins.dict):
+            state = (state,)
         for param_dict in filter(None, state):
             for slot, value in param_dict.items():
                 object.__setattr__(self, slot, value)
